@@ -104,8 +104,8 @@ theorem _root_.KafVerif.C19.lease_nil_means_owned (var : Variant) (s : Lease.Sta
 /-- **AcquireAll covers every requested partition**: the result list has exactly one entry per
 requested partition, in request order — no partition is left without a lease result (a cap on the
 fan-out that silently drops the overflow would break exactly this). -/
-theorem _root_.KafVerif.C19.acquireAll_covers_every_partition (b : Nat) (fail : Bool) (l : Lease.State) (ps : List Nat) :
-    (acquireAll b fail l ps).2.map (·.1) = ps := by
+theorem _root_.KafVerif.C19.acquireAll_covers_every_partition (b : Nat) (fail : Bool) (cancel : Nat → Option Nat)
+    (l : Lease.State) (ps : List Nat) : (acquireAll b fail cancel l ps).2.map (·.1) = ps := by
   induction ps generalizing l with
   | nil => simp [acquireAll]
   | cons p ps ih =>
@@ -114,8 +114,9 @@ theorem _root_.KafVerif.C19.acquireAll_covers_every_partition (b : Nat) (fail : 
 
 /-- … and every nil result reflects an actual attempt: the partition was found in the ownership set
 or an `Acquire` call for it returned nil, and it is (still) owned when `AcquireAll` returns. -/
-theorem _root_.KafVerif.C19.acquireAll_nil_owned (b : Nat) (fail : Bool) (l : Lease.State) (ps : List Nat) (p : Nat)
-    (h : (p, LeaseRes.nil) ∈ (acquireAll b fail l ps).2) : owns (acquireAll b fail l ps).1 b p = true := by
+theorem _root_.KafVerif.C19.acquireAll_nil_owned (b : Nat) (fail : Bool) (cancel : Nat → Option Nat) (l : Lease.State)
+    (ps : List Nat) (p : Nat) (h : (p, LeaseRes.nil) ∈ (acquireAll b fail cancel l ps).2) :
+    owns (acquireAll b fail cancel l ps).1 b p = true := by
   induction ps generalizing l with
   | nil => simp [acquireAll] at h
   | cons q ps ih =>
@@ -125,15 +126,56 @@ theorem _root_.KafVerif.C19.acquireAll_nil_owned (b : Nat) (fail : Bool) (l : Le
       simp only [ho, if_true]
       simp only [List.mem_cons, Prod.mk.injEq, and_true] at h
       rcases h with rfl | h
-      · exact acquireAll_mono b fail l ps b p ho
+      · exact acquireAll_mono b fail cancel l ps b p ho
       · exact ih l h
     · rename_i ho
       simp only [ho, Bool.false_eq_true, if_false]
       simp only [List.mem_cons, Prod.mk.injEq] at h
       rcases h with ⟨rfl, hr⟩ | h
       · have hok := ofRes_nil hr.symm
-        exact acquireAll_mono b fail _ ps b p ((runAcquire_spec l b p fail).2 hok)
+        exact acquireAll_mono b fail cancel _ ps b p ((acquireOne_spec l b p fail (cancel p)).2 hok)
       · exact ih _ h
+
+/-- **every result slot is written from an actual attempt** (the model side of the static obligation
+`acquireAll_no_zero_value_result`): each entry of the result list is either "found owned, nil" or the translated return value of
+the `Acquire` call made for that partition (with the request's cancellation) — there is no third way for a slot to be nil. -/
+theorem _root_.KafVerif.C19.acquireAll_slot_from_acquire (b : Nat) (fail : Bool) (cancel : Nat → Option Nat) (l : Lease.State)
+    (ps : List Nat) :
+    ∀ x ∈ (acquireAll b fail cancel l ps).2, ∃ l', (owns l' b x.1 = true ∧ x.2 = .nil) ∨
+      (owns l' b x.1 = false ∧ x.2 = ofRes (acquireOne l' b x.1 fail (cancel x.1)).2) := by
+  induction ps generalizing l with
+  | nil => simp [acquireAll]
+  | cons q ps ih =>
+    intro x hx
+    simp only [acquireAll] at hx
+    split at hx
+    · rename_i ho
+      simp only [List.mem_cons] at hx
+      rcases hx with rfl | hx
+      · exact ⟨l, Or.inl ⟨ho, rfl⟩⟩
+      · exact ih l x hx
+    · rename_i ho
+      simp only [List.mem_cons] at hx
+      rcases hx with rfl | hx
+      · exact ⟨l, Or.inr ⟨by simpa using ho, rfl⟩⟩
+      · exact ih _ x hx
+
+/-- **a cancelled Acquire yields an ERROR result, never nil**: when ctx is done before the Acquire of a partition the
+broker does not own has made a single step, its result is the context error (or ShuttingDown from the entry check). -/
+theorem _root_.KafVerif.C19.cancelled_acquire_is_error (l : Lease.State) (b r : Nat) (fail : Bool) (hno : owns l b r = false) :
+    ofRes (acquireOne l b r fail (some 0)).2 = .other ∨ ofRes (acquireOne l b r fail (some 0)).2 = .shuttingDown := by
+  simp only [owns, Option.isSome_eq_false_iff, Option.isNone_iff_eq_none] at hno
+  simp only [acquireOne, runAcquireCancel, Lease.step, hno, Option.isSome_none, Bool.false_eq_true, if_false]
+  by_cases hc : (l.mgr b).closed = true
+  · simp [hc, ofRes]
+  · by_cases ha : (l.acq b r).isSome = true
+    · simp [hc, ha, cancelAcquire, ofRes]
+    · simp [hc, ha, cancelAcquire, ofRes]
+
+/-- … and however late ctx fires (`k` steps), a nil result still means the partition is owned when the call returns -/
+theorem _root_.KafVerif.C19.cancelled_acquire_nil_owned (l : Lease.State) (b r : Nat) (fail : Bool) (k : Nat)
+    (h : ofRes (acquireOne l b r fail (some k)).2 = .nil) : owns (acquireOne l b r fail (some k)).1 b r = true :=
+  (acquireOne_spec l b r fail (some k)).2 (ofRes_nil h)
 
 theorem leaseOf_mem (results : List (Nat × LeaseRes)) (p : Nat) (hp : p ∈ results.map (·.1)) :
     (p, leaseOf results p) ∈ results := by
@@ -154,31 +196,33 @@ theorem leaseOf_mem (results : List (Nat × LeaseRes)) (p : Nat) (hp : p ∈ res
 every requested partition, a success code means the partition is in the broker's ownership set when
 `acquirePartitionLeases` returns — whatever the rest of the request looks like, however many
 partitions it has. -/
-theorem _root_.KafVerif.C19.produce_request_gate (b : Nat) (fail : Bool) (env : Nat → PartIn) (l : Lease.State) (parts : List Nat)
-    (p : Nat) (out : PartOut) (hmem : (p, out) ∈ (produceRequest b fail env l parts).2) (hcode : out.code = 0) :
-    owns (produceRequest b fail env l parts).1 b p = true := by
+theorem _root_.KafVerif.C19.produce_request_gate (b : Nat) (fail : Bool) (cancel : Nat → Option Nat) (env : Nat → PartIn)
+    (l : Lease.State) (parts : List Nat)
+    (p : Nat) (out : PartOut) (hmem : (p, out) ∈ (produceRequest b fail cancel env l parts).2) (hcode : out.code = 0) :
+    owns (produceRequest b fail cancel env l parts).1 b p = true := by
   simp only [produceRequest, List.mem_map, Prod.mk.injEq] at hmem
   obtain ⟨q, hq, rfl, rfl⟩ := hmem
   have hnil := (KafVerif.C19.produce_gate_partial _ hcode).1
   simp only at hnil
-  have hcov := KafVerif.C19.acquireAll_covers_every_partition b fail l parts
-  have := leaseOf_mem (acquireAll b fail l parts).2 q (by rw [hcov]; exact hq)
+  have hcov := KafVerif.C19.acquireAll_covers_every_partition b fail cancel l parts
+  have := leaseOf_mem (acquireAll b fail cancel l parts).2 q (by rw [hcov]; exact hq)
   rw [hnil] at this
-  exact KafVerif.C19.acquireAll_nil_owned b fail l parts q this
+  exact KafVerif.C19.acquireAll_nil_owned b fail cancel l parts q this
 
 /-- and nothing is appended for a partition whose lease attempt failed -/
-theorem _root_.KafVerif.C19.produce_request_no_write (b : Nat) (fail : Bool) (env : Nat → PartIn) (l : Lease.State) (parts : List Nat)
-    (p : Nat) (out : PartOut) (hmem : (p, out) ∈ (produceRequest b fail env l parts).2)
+theorem _root_.KafVerif.C19.produce_request_no_write (b : Nat) (fail : Bool) (cancel : Nat → Option Nat) (env : Nat → PartIn)
+    (l : Lease.State) (parts : List Nat)
+    (p : Nat) (out : PartOut) (hmem : (p, out) ∈ (produceRequest b fail cancel env l parts).2)
     (hw : out.appended = true ∨ out.flushed = true) :
-    owns (produceRequest b fail env l parts).1 b p = true := by
+    owns (produceRequest b fail cancel env l parts).1 b p = true := by
   simp only [produceRequest, List.mem_map, Prod.mk.injEq] at hmem
   obtain ⟨q, hq, rfl, rfl⟩ := hmem
   have hnil := (KafVerif.C19.no_write_without_gate _ hw).1
   simp only at hnil
-  have hcov := KafVerif.C19.acquireAll_covers_every_partition b fail l parts
-  have := leaseOf_mem (acquireAll b fail l parts).2 q (by rw [hcov]; exact hq)
+  have hcov := KafVerif.C19.acquireAll_covers_every_partition b fail cancel l parts
+  have := leaseOf_mem (acquireAll b fail cancel l parts).2 q (by rw [hcov]; exact hq)
   rw [hnil] at this
-  exact KafVerif.C19.acquireAll_nil_owned b fail l parts q this
+  exact KafVerif.C19.acquireAll_nil_owned b fail cancel l parts q this
 
 /-- in the interleaved system the handler passes its lease step only while it owns the partition -/
 theorem _root_.KafVerif.C19.gate_step_owned (y : Sys) (b r : Nat) (h : (sstep y (.gate b r)).passed b r = true)
@@ -210,5 +254,13 @@ example : (producePart ⟨true, true, .nil, .healthy, true, true, true, true, fa
 example : (producePart ⟨true, true, .notOwner, .healthy, true, true, true, true, false, true⟩).code = 6 := by decide
 example : (producePart ⟨true, true, .other, .degraded, true, true, true, true, false, true⟩).code = 7 := by decide
 example : (srun (fullAcquire 0 0 ++ [.gate 0 0, .append 0 0])).appends = [⟨0, 0, true, true⟩] := by decide
+-- cancellation: ctx done at once -> error and nothing owned; ctx done after the Acquire finished -> nil and owned
+example : (acquireAll 0 false (fun _ => some 0) Lease.init [3]).2 = [(3, .other)] ∧
+    owns (acquireAll 0 false (fun _ => some 0) Lease.init [3]).1 0 3 = false := by decide
+example : (acquireAll 0 false (fun _ => some 9) Lease.init [3]).2 = [(3, .nil)] ∧
+    owns (acquireAll 0 false (fun _ => some 9) Lease.init [3]).1 0 3 = true := by decide
+-- ctx done after the create transaction but before the guarded insert: the key is in etcd, the result is still an error
+example : (acquireAll 0 false (fun _ => some 4) Lease.init [3]).2 = [(3, .other)] ∧
+    etcdOwner (acquireAll 0 false (fun _ => some 4) Lease.init [3]).1 3 = some 0 := by decide
 
 end KafVerif.ProduceGate
